@@ -190,10 +190,19 @@ func countedLoop(l *loopInfo) (string, bool) {
 	if !ok {
 		return "", false
 	}
-	invariant := func(v ssa.Value) bool {
+	var invariant func(v ssa.Value) bool
+	invariant = func(v ssa.Value) bool {
 		switch t := v.(type) {
 		case *ssa.Const, *ssa.Parameter:
 			return true
+		case *ssa.Call:
+			// len / cap of an invariant value: an SSA string or slice value never changes its length
+			if isBuiltinCall(t, "len") || isBuiltinCall(t, "cap") {
+				if invariant(t.Call.Args[0]) {
+					return true
+				}
+			}
+			return !l.body[t.Block()]
 		case ssa.Instruction:
 			return !l.body[t.Block()]
 		}
